@@ -5,7 +5,7 @@ CONSTANTS
   Kind = "nameaddr"
   Atoms <- AtomsParams
   Prefix <- PfxAS
-  MaxLen = 6
+  MaxLen = 7
   Cfgs <- CfgsNA18
   Junk = 34
   EmitOn = TRUE
